@@ -250,7 +250,10 @@ func (r *Run) checkCrossNamespace() {
 		cm.Data[k] = "allow"
 	}
 	open[KConfigMap][globalConfigMapName] = cm
+	// (two full syncs: the permissions a sync works with may be the ones the previous sync left)
+	r.freshTwice = true
 	nfOpen, _ := r.freshWithReads(open)
+	r.freshTwice = false
 	if nfOpen != nil && DiffNF(nfD, nfOpen, "long-running", "all-open") == "" && DiffNF(nfOpen, nfT, "all-open", "foreign-objects-absent") != "" {
 		d := DiffNF(nfD, nfT, "long-running", "foreign-objects-absent")
 		r.violate(&Violation{Property: "C09", Oracle: "long-running", Class: "long-running-uses-foreign-object:" + diffClass2(d),
